@@ -425,17 +425,28 @@ def run(ctx):
         n_app += len(apps)
     if not bad:
         chk.ok("R10.d", hu.qualname, hu.loc(), "appends its argument exactly once on every path")
-    ok = any(
-        isinstance(n, ast.Assign) and any(isinstance(t, ast.Attribute) and t.attr == "history" for t in n.targets) and is_empty_list(n.value)
-        for n in own_nodes(hr.node)
-    ) or any(
-        isinstance(n, ast.Call) and isinstance(n.func, ast.Attribute) and n.func.attr == "clear" and ast.unparse(n.func.value) == "self.history"
-        for n in own_nodes(hr.node)
-    )
-    if ok:
+    from ..lifecycle import Lifecycle
+
+    lc_h = Lifecycle(ctx)
+    ws = [w for w in lc_h.attr_writes(hr, hist) if w.attr == "history"]
+
+    def _empties(w):
+        if w.kind == "rebind":
+            v = getattr(w.event.node, "value", None)
+            return v is not None and is_empty_list(ctx.norm.xexpr(w.fi, v))
+        return ".clear()" in (w.text or "")
+
+    if not ws:
+        chk.violation("R10.d", hr, None, "HistoryObserver.reset never touches the history: the record of the previous episode stays")
+    elif any(_empties(w) for w in ws):
         chk.ok("R10.d", hr.qualname, hr.loc(), "reset empties the history")
     else:
-        chk.violation("R10.d", hr, None, "HistoryObserver.reset does not empty the history")
+        w = ws[0]
+        v = getattr(w.event.node, "value", None)
+        if w.kind == "rebind" and v is not None and isinstance(ctx.norm.xexpr(w.fi, v), (ast.List, ast.ListComp, ast.Subscript, ast.Attribute, ast.Name)):
+            chk.violation("R10.d", hr, w.event.node, f"HistoryObserver.reset leaves the history as `{ast.unparse(v)[:60]}`, not empty", loc=w.loc)
+        else:
+            raise AnalysisError(f"{w.loc}: HistoryObserver.reset: how the history is emptied is not recognised ({w.text})")
 
     # ---------------------------------------------------------------- R10.e
     _create_or_get(ctx, disp)
